@@ -154,5 +154,4 @@ func cmdVC(args []string) {
 	fmt.Printf("total: %d discharged, %d not; solver time %.1fs; by solver %v; wall %.1fs\n", nOK, nFail, stats.secs, stats.bySolver, time.Since(t0).Seconds())
 }
 
-func cmdFrame(args []string)    { fmt.Println("not implemented yet"); os.Exit(2) }
 func cmdSelftest(args []string) { fmt.Println("not implemented yet"); os.Exit(2) }
